@@ -248,6 +248,7 @@ class C16(Prop):
     """Theorems (Props/C16.lean): for every shipped constant whose words can be typed (777 of 878; kernel run of lexer, parser and evaluator models on each) the query of its words performs exactly one lookup of exactly that phrase; the query's terms are the constant's indexed terms (also permuted), no word loses all its terms; top-1 returns a carrier of all words whenever carriers outscore non-carriers. That separation for tantivy's BM25 is established per run by exhaustive execution over all shipped constants and their word permutations, not proved (partial)."""
     id = "C16"
     module = "Anything.Props.C16"
+    extra_modules = ["Anything.Props.FactQuery"]
     needs_db_tables = True
     trusted = ["tantivy n-gram tokenizer, query parser and BM25 ranking (validated by exhaustive execution, not proved)"]
 
@@ -414,6 +415,7 @@ class C18(Prop):
     """Theorems (Props/C18.lean): values do not depend on the describe flag; no log without it; the log appends, independent of the incoming log; every entry is a successful lookup paired with that constant's description; the value depends on the database only through the reported phrases (and each is needed); order (right operand first); results of several queries = results in isolation, also permuted. Correspondence: expressions mixing literals and facts with and without descriptions in varying orders; isolation scenario (fresh instance per phrase vs shared instance in several orders, case variants, capitalised operators)."""
     id = "C18"
     module = "Anything.Props.C18"
+    extra_modules = ["Anything.Props.FactQuery"]
     needs_tables = True
     trusted = ["lookups are answered by the real database and handed to the model as a table"]
 
